@@ -1,6 +1,7 @@
 /- `hydrv frag` (stateless: codec + splitter) and `hydrv defrag` (stateful: Defragger) —
    line-protocol drivers for Hy.Model.Frag (C05). Core Lean only. -/
 import Hy.Model.Frag
+import Hy.Model.AutoFrag
 import Hy.Drv.Util
 namespace Hy.Drv.Frag
 open Hy Hy.Frag Hy.Drv
@@ -31,8 +32,44 @@ def showFrags : Res (List UDPMessage) → String
   | .ok [] => "nil"
   | .ok fs => s!"ok n={fs.length} " ++ " ".intercalate (fs.map showFrag)
 
+/-- one token of the recorded environment: [R]O | [R]T<limit> | [R]F -/
+def parseEnv1 (tok : String) : Option Env1 :=
+  let (logOk, t) := if tok.startsWith "R" then (false, (tok.drop 1).toString) else (true, tok)
+  if t = "O" then some ⟨logOk, .ok⟩
+  else if t = "F" then some ⟨logOk, .fail⟩
+  else if t.startsWith "T" then ((t.drop 1).toString.toInt?).map fun L => ⟨logOk, .tooLarge L⟩
+  else none
+
+def showResp : Resp → String
+  | .ok => "O"
+  | .fail => "F"
+  | .tooLarge L => s!"T{L}"
+
+def showErr : Option SendErr → String
+  | none => "none"
+  | some (.tooLarge L) => s!"toolarge:{L}"
+  | some .other => "other"
+  | some .disconnect => "disconnect"
+
+def showHanded (hs : List Handed) : String :=
+  hs.foldl (fun acc h => acc ++ s!" {h.bytes.length}:{digest h.bytes}:{showResp h.resp}") ""
+
 def step (line : String) : String :=
   match fields line with
+  | ["pidhunt", side, seed, n] =>
+    -- oracle-only operation (the draws of the real math/rand are not reproduced here): the model's
+    -- statement about it is `packet_id_nonzero_range`
+    if (side = "c" ∨ side = "s") ∧ (nats [seed, n]).isSome then "ok" else "bad-op"
+  | ["autofrag", side, sid, alen, aseed, dlen, dseed, draw, toks] =>
+    match nats [sid, alen, aseed, dlen, dseed, draw], (if toks = "-" then some [] else (toks.splitOn ",").mapM parseEnv1) with
+    | some [sid, alen, aseed, dlen, dseed, draw], some envs =>
+      if side ≠ "c" ∧ side ≠ "s" then "bad-op" else
+      let m := mkMsg sid 0 0 1 (pat aseed alen) (pat dseed dlen)
+      match autoFrag (side == "s") Gen.MaxUDPSize m draw (fun i => envs.getD i {}) with
+      | .ok (hs, e) => s!"err={showErr e} n={hs.length}" ++ showHanded hs
+      | .reject => "reject"
+      | .panic => "panic"
+    | _, _ => "bad-op"
   | "ser" :: rest =>
     match nats rest with
     | some [sid, pid, fid, cnt, alen, aseed, dlen, dseed, buflen] =>
